@@ -884,9 +884,20 @@ class CallMixin:
     def sp_has_key(self, node, env):
         """has_key(s, c): the set[bytes] s has a member whose id is c."""
         s, c = self.evalv(node.args[0], env), self.evalv(node.args[1], env)
+        if isinstance(s.ty, TDict) and s.ty.k == TBytes:
+            # (C19) dict[bytes, V]: some key of the dict has the id c
+            return sym.mk_bool(z3.Select(sym.dict_dom(s), sym.as_int(c)))
         if not (isinstance(s.ty, TSet) and s.ty.k == TBytes):
             raise Unsupported("has_key on %s" % s.ty)
         return sym.mk_bool(z3.Select(s.t, sym.as_int(c)))
+
+    def sp_val_at(self, node, env):
+        """(C19) val_at(d, c): the value a dict[bytes, V] stores under the key whose id is c (meaningful under has_key(d, c));
+        spec only - the quantifiable counterpart of d[k], as has_key is of `k in d`."""
+        s, c = self.evalv(node.args[0], env), self.evalv(node.args[1], env)
+        if not (isinstance(s.ty, TDict) and s.ty.k == TBytes):
+            raise Unsupported("val_at on %s" % s.ty)
+        return V(s.ty.v, z3.Select(sym.dict_val(s), sym.as_int(c)))
 
     def json_term(self, v):
         """(added for C20) z3 Bool: the value is JSON-typed (str / int / float / bool / None / list / dict with str keys
@@ -1083,6 +1094,14 @@ class CallMixin:
             self.fail(n >= 0, "ValueError", "negative count", node)
             return sym.bytes_mk(n, z3.K(z3.IntSort(), I(0)))
         if isinstance(v.ty, TList) and v.ty.elem == TInt:
+            # (C19) bytes(<list of ints>) raises ValueError unless every element is in range(256).  Checked for lists of
+            # literal length (list displays, the only form in the repository: retry.encode_address); longer / symbolic
+            # lists stay unchecked as before
+            n = z3.simplify(sym.list_len(v))
+            if z3.is_int_value(n) and n.as_long() <= 16:
+                for i in range(n.as_long()):
+                    e = z3.Select(sym.list_arr(v), i)
+                    self.fail(z3.And(0 <= e, e <= 255), "ValueError", "bytes must be in range(0, 256)", node)
             return sym.bytes_mk(sym.list_len(v), sym.list_arr(v))
         raise Unsupported("bytes() of %s" % v.ty)
 
@@ -1102,9 +1121,35 @@ class CallMixin:
         names = [getattr(x, "id", getattr(x, "attr", None)) for x in (tn.elts if isinstance(tn, ast.Tuple) else [tn])]
         if isinstance(v, V):
             ty = v.ty
+            if isinstance(ty, TOpt) and isinstance(ty.inner, TRef) and not self.spec:
+                # (C19) isinstance(None, C) is False; otherwise decide on the value
+                if self.ctx.branch(sym.opt_is_none(v)):
+                    return sym.mk_bool(False)
+                v = sym.opt_val(v)
+                ty = v.ty
             if isinstance(ty, TRef):
                 info = self.index.cls(ty.cls)
-                return sym.mk_bool(any(c.name in names for c in self.index.mro(info)))
+                if any(c.name in names for c in self.index.mro(info)):
+                    return sym.mk_bool(True)
+                # (C19) the value may be an instance of a SUBCLASS of its static class (e.g. a QuicEvent handed out by
+                # next_event): when some subclass known to the index is (a subclass of) one of `names`, the answer
+                # depends on the DYNAMIC class - the `__class__` tag every object carries (written at construction,
+                # unconstrained for objects that already existed).  Static class without such a subclass: False, as before.
+                hits = []
+                for dn in sorted(self.index.classes):
+                    di = self.index.cls(dn)
+                    if di is None or di is info:
+                        continue
+                    try:
+                        dm = self.index.mro(di)
+                    except Exception:
+                        continue
+                    if any(c is info for c in dm) and any(c.name in names for c in dm):
+                        hits.append(dn)
+                if not hits:
+                    return sym.mk_bool(False)
+                dyn = self.heap.read("object", "__class__", TInt, v.t).t
+                return sym.mk_bool(z3.Or(*[dyn == self.class_id(dn) for dn in hits]))
             if ty == TAny or (isinstance(ty, TOpt) and ty.inner == TAny):
                 # opaque external object: its dynamic class is unknown; isinstance is an uninterpreted predicate of
                 # (object handle, class name) - deterministic, otherwise unconstrained; None is an instance of nothing
@@ -1123,6 +1168,53 @@ class CallMixin:
         """typing.cast(T, x) is the identity at run time"""
         return self.eval(node.args[1], env)
 
+    def _partial_term(self, qual, recv_t, arg_t):
+        ids = self.registry.__dict__.setdefault("_partial_ids", {})
+        f = z3.Function("uf_partial", z3.IntSort(), z3.IntSort(), z3.IntSort(), z3.IntSort())
+        return f(z3.IntVal(ids.setdefault(qual, len(ids))), recv_t, arg_t)
+
+    def bi_partial(self, node, env):
+        """(C19) functools.partial(<bound method obj.m>, <one keyword argument k=<object>>): a callable VALUE, the
+        uninterpreted term uf_partial(code of "Cls.m", obj, argument object).  Nothing is assumed about calling it (a call
+        of such a value goes through the callback contract of the field it is stored in); the term only lets a clause
+        say WHICH partial application a field holds: spec builtin partial_of('Cls.m', obj, arg)."""
+        if len(node.args) != 1 or len(node.keywords) != 1 or node.keywords[0].arg is None:
+            raise Unsupported("partial(): only partial(<bound method>, <one keyword>=<object>)")
+        callee = self.eval(node.args[0], env)
+        arg = self.evalv(node.keywords[0].value, env)
+        if isinstance(arg.ty, TOpt) and isinstance(arg.ty.inner, TRef):
+            if self.ctx.branch(sym.opt_is_none(arg)):
+                raise Unsupported("partial(): keyword argument None")
+            arg = sym.opt_val(arg)
+        if not (isinstance(callee, BoundMethod) and callee.cls is not None and isinstance(callee.recv, V) and isinstance(callee.recv.ty, TRef) and isinstance(arg.ty, TRef)):
+            raise Unsupported("partial(): only partial(<bound method>, <one keyword>=<object>)")
+        owner, meth = self.index.find_method(self.index.cls(callee.recv.ty.cls), callee.name)
+        if meth is None:
+            raise Unsupported("partial(): unknown method %s" % callee.name)
+        return V(TFunc, self._partial_term("%s.%s" % (owner.name, callee.name), callee.recv.t, arg.t))
+
+    def sp_partial_of(self, node, env):
+        """partial_of('Cls.m', obj, arg): the callable value functools.partial(obj.m, <keyword>=arg) (see bi_partial)"""
+        obj, arg = self.evalv(node.args[1], env), self.evalv(node.args[2], env)
+        return V(TFunc, self._partial_term(node.args[0].value, obj.t, arg.t))
+
+    def bi_id(self, node, env):
+        """(C19) id(obj): CPython's identity number.  Modelled as the uninterpreted function uf_obj_id (usable in clauses
+        after R.ufunc("obj_id", [<class>], "int")) that is INJECTIVE: two objects that are alive at the same time never
+        share an id.  The model has no deallocation, so the axiom is stated for all references; it is only meaningful
+        for objects that are reachable when the clause is evaluated (an id may be reused after an object died) -
+        recorded as an assumption."""
+        if len(node.args) != 1 or node.keywords:
+            raise Unsupported("id() arity")
+        v = self.evalv(node.args[0], env)
+        if not isinstance(v.ty, TRef):
+            raise Unsupported("id() of %s" % v.ty)
+        f = z3.Function("uf_obj_id", z3.IntSort(), z3.IntSort())
+        a, b = z3.Consts("id_a id_b", z3.IntSort())
+        self.ctx.axioms.setdefault("obj_id", z3.ForAll([a, b], z3.Implies(f(a) == f(b), a == b), patterns=[z3.MultiPattern(f(a), f(b))]))
+        self.assumptions_used.add("id(): distinct objects alive at the same time have distinct ids (CPython); clauses mention ids of reachable objects only")
+        return V(TInt, f(v.t))
+
     def bi_print(self, node, env):
         return NONE
 
@@ -1137,7 +1229,18 @@ class CallMixin:
     def bi_list(self, node, env):
         if not node.args:
             return EmptyLiteral("list")
-        v = self.evalv(node.args[0], env)
+        x = self.eval(node.args[0], env)
+        from .dictiter import DictView
+
+        if isinstance(x, DictView):
+            # (C19) list(d.keys() / d.values() / d.items()): a COPY holding the snapshot enumeration of the dict at this
+            # moment (dictiter.enum_dict: pairwise distinct keys covering exactly the domain, arbitrary order).  The dict
+            # may be changed afterwards - by the body of a loop over the copy, for instance - without affecting it.
+            # Ghost names: _lst<n>_keys, _lst<n>_pos, _lst<n>_kid (key ids, for bytes keys); as the iterable of a for-loop: _seq<N>_*.
+            return self.enum_dict(x, env, self.take_enum_tag("_lst"))
+        if not isinstance(x, V):
+            raise Unsupported("non-symbolic value in value position: list() of %s" % type(x).__name__)
+        v = x
         if isinstance(v.ty, TList):
             return V(v.ty, v.t)
         raise Unsupported("list() of %s" % v.ty)
@@ -1171,8 +1274,8 @@ class CallMixin:
                             d = sym.dict_empty(ty)
                             dom, val = sym.dict_dom(d), sym.dict_val(d)
                             for k, v in pairs:
-                                dom = z3.Store(dom, sym.coerce(k, ty.k).t, True)
-                                val = z3.Store(val, sym.coerce(k, ty.k).t, sym.coerce(v, ty.v).t)
+                                dom = z3.Store(dom, self.dict_key(ty, k), True)
+                                val = z3.Store(val, self.dict_key(ty, k), sym.coerce(v, ty.v).t)
                             return sym.dict_mk(ty, dom, val)
         return None
 
@@ -1287,9 +1390,9 @@ class CallMixin:
                 return V(ty, recv.t)
         if isinstance(ty, TDict):
             if name == "get":
-                k = sym.coerce(args[0], ty.k)
-                present = z3.Select(sym.dict_dom(recv), k.t)
-                val = V(ty.v, z3.Select(sym.dict_val(recv), k.t))
+                k_t = self.dict_key(ty, args[0])
+                present = z3.Select(sym.dict_dom(recv), k_t)
+                val = V(ty.v, z3.Select(sym.dict_val(recv), k_t))
                 dflt = args[1] if len(args) > 1 else NONE
                 if self.spec:
                     return sym.ite(present, val, dflt)
@@ -1301,18 +1404,18 @@ class CallMixin:
                     return val if dflt.ty != TNone or isinstance(ty.v, TOpt) else sym.mk_some(val)
                 return dflt if dflt.ty != TNone or isinstance(ty.v, TOpt) else sym.mk_none(TOpt(ty.v))
             if name == "pop":
-                k = sym.coerce(args[0], ty.k)
-                present = z3.Select(sym.dict_dom(recv), k.t)
+                k_t = self.dict_key(ty, args[0])
+                present = z3.Select(sym.dict_dom(recv), k_t)
                 if len(args) < 2:
                     self.fail(present, "KeyError", "dict.pop missing key", node)
-                    val = V(ty.v, z3.Select(sym.dict_val(recv), k.t))
+                    val = V(ty.v, z3.Select(sym.dict_val(recv), k_t))
                     if isinstance(ty.v, TRef):
                         self.note_ref(val.t)
-                    self.dict_mutate(tgt, recv, sym.dict_mk(ty, z3.Store(sym.dict_dom(recv), k.t, False), sym.dict_val(recv)), env, "delete", k.t)
+                    self.dict_mutate(tgt, recv, sym.dict_mk(ty, z3.Store(sym.dict_dom(recv), k_t, False), sym.dict_val(recv)), env, "delete", k_t)
                     return val
                 if self.ctx.branch(present):
-                    val = V(ty.v, z3.Select(sym.dict_val(recv), k.t))
-                    self.dict_mutate(tgt, recv, sym.dict_mk(ty, z3.Store(sym.dict_dom(recv), k.t, False), sym.dict_val(recv)), env, "delete", k.t)
+                    val = V(ty.v, z3.Select(sym.dict_val(recv), k_t))
+                    self.dict_mutate(tgt, recv, sym.dict_mk(ty, z3.Store(sym.dict_dom(recv), k_t, False), sym.dict_val(recv)), env, "delete", k_t)
                     return val if args[1].ty != TNone else sym.mk_some(val)
                 return args[1] if args[1].ty != TNone else sym.mk_none(TOpt(ty.v))
             if name == "clear":
